@@ -68,6 +68,22 @@
 
 namespace ff {
 
+#if defined FIX8_VERIF
+/*
+ * Verification hook (off unless FIX8_VERIF is defined; without it the preprocessor output is unchanged).
+ * A harness may install a function that is called after every completed push to / pop from a single-writer single-reader buffer
+ * (data segments as well as the segment pool's cache and in-use lists) with the kind of point and the buffer: it can record the
+ * event, delay or park the calling thread.  This makes the steps of segment switching and recycling in the unbounded queues
+ * schedulable.  Calls only; nothing else changes.
+ */
+typedef void (*verif_swsr_hook_t)(int kind, const void *buffer);
+inline verif_swsr_hook_t& verif_swsr_hook() { static verif_swsr_hook_t hook = 0; return hook; }
+enum { VERIF_SWSR_PUSHED=20, VERIF_SWSR_POPPED=21 };
+#define FIX8_VERIF_SWSR_POINT(kind, buffer) do { if (verif_swsr_hook()) verif_swsr_hook()((kind), (buffer)); } while(0)
+#else
+#define FIX8_VERIF_SWSR_POINT(kind, buffer)
+#endif
+
 // 64 bytes is the common size of a cache line
 static const int longxCacheLine = (CACHE_LINE_SIZE/sizeof(long));
 
@@ -226,6 +242,7 @@ public:
             //std::atomic_thread_fence(std::memory_order_release);
             buf[pwrite] = data;
             pwrite += (pwrite+1 >=  size) ? (1-size): 1; // circular buffer
+            FIX8_VERIF_SWSR_POINT(VERIF_SWSR_PUSHED, this);
             return true;
         }
         return false;
@@ -318,7 +335,13 @@ public:
         if (empty()) return false;
         *data = buf[pread];
         //std::atomic_thread_fence(std::memory_order_acquire);
+#if defined FIX8_VERIF
+        const bool verif_popped = inc();
+        FIX8_VERIF_SWSR_POINT(VERIF_SWSR_POPPED, this);
+        return verif_popped;
+#else
         return inc();
+#endif
     }
 
     /**
